@@ -677,18 +677,18 @@ func checkConc(t *testing.T, c Case) (v harness.Verdict) {
 					if s.Spec.Precert {
 						path = "/ct/v1/add-pre-chain"
 					}
+					// The clock stands still in this variant, so the leaf is known beforehand; it has to be registered
+					// BEFORE the request, because a reader may be served the entry before this goroutine resumes (two
+					// precertificates can share a TBS, hence a leaf_input, and differ in extra_data).
+					if lv, err := rfc6962.EncodeLeaf(rfc6962.Leaf{Timestamp: uint64(r.clock.Now().UnixMilli()), Entry: b.Entry()}); err == nil {
+						r.mu.Lock()
+						r.want[string(lv)] = append(r.want[string(lv)], b.ExtraData())
+						r.mu.Unlock()
+					}
 					rsp := r.indirect.Post(path, addBody(b.Submit))
 					vmu.Lock()
 					if rsp.Status != 200 {
 						v.Failf("indirect-submission-refused", "%s refused: %d %q", path, rsp.Status, trunc(rsp.Body))
-					} else {
-						var sct ct.AddChainResponse
-						json.Unmarshal(rsp.Body, &sct)
-						if lv, err := rfc6962.EncodeLeaf(rfc6962.Leaf{Timestamp: sct.Timestamp, Entry: b.Entry()}); err == nil {
-							r.mu.Lock()
-							r.want[string(lv)] = append(r.want[string(lv)], b.ExtraData())
-							r.mu.Unlock()
-						}
 					}
 					vmu.Unlock()
 				case "entries", "eap":
